@@ -105,7 +105,7 @@ def m1(ctx, rep, T):
 
 
 def m2(ctx, rep, T):
-    f = ctx.fn('used_imports', file='language/mod.rs')
+    f = ctx.fnx('used_imports', file='language/mod.rs')
     site = {'file': f['file'], 'line': f['line']}
     # every inserted name comes from the registered type set of the crate it is filed under
     ins = [c for c in f['calls'] if c.get('f') in ('insert', 'extend', 'or_insert') or (c.get('f') == 'BTreeSet::from')]
@@ -117,7 +117,7 @@ def m2(ctx, rep, T):
             root = prov_root(c['args'][-1])
             ok = root == 'all_types'
             bad = False
-            rep.check(ok and not bad, 'M2', f"import-name-source:{c.get('line', 0) - f['line']}", f'inserted from {src[:50]}', f"used_imports inserts `{src[:80]}` into the import list: imported names must be taken from the type set registered for the imported crate (all_types[crate]), not from what the source file merely mentions", {'file': f['file'], 'line': c.get('line')})
+            rep.check(ok and not bad, 'M2', f"import-name-source:{c['f']}#{n}", f'inserted from {src[:50]}', f"used_imports inserts `{src[:80]}` into the import list: imported names must be taken from the type set registered for the imported crate (all_types[crate]), not from what the source file merely mentions", {'file': f['file'], 'line': c.get('line')})
     rep.floor('M2', 'import insertions', n, 3)
     txt = json.dumps(f['loops']) + json.dumps(f['calls']) + json.dumps(f['lets'])
     loop = [l for l in f['loops'] if l.get('kind') == 'for']
